@@ -125,6 +125,102 @@ def fresh_receiver(fn: ast.FunctionDef, call: ast.Call, classes: Set[str]) -> Tu
     return True, f"`{root_txt}` is a fresh clone/constructor result on every path"
 
 
+def assigns_on_all_paths(cls: ast.ClassDef, fn: ast.FunctionDef, field: str, depth: int = 0) -> bool:
+    """Does every path through ``fn`` assign ``self.<field>`` (directly, or through a call of an own
+    method that does)?"""
+    meths = class_methods(cls)
+
+    def stmt_assigns(st: ast.stmt) -> bool:
+        if isinstance(st, (ast.Assign, ast.AnnAssign)):
+            tg = st.targets if isinstance(st, ast.Assign) else [st.target]
+            if any(dotted(t) == f"self.{field}" for t in tg):
+                return True
+        if isinstance(st, ast.Expr) or isinstance(st, (ast.Assign, ast.Return)):
+            v = st.value if not isinstance(st, ast.Expr) else st.value
+            if v is not None:
+                for c in ast.walk(v):
+                    if isinstance(c, ast.Call) and isinstance(c.func, ast.Attribute) and dotted(c.func.value) == "self" and c.func.attr in meths and depth < 3:
+                        if assigns_on_all_paths(cls, meths[c.func.attr], field, depth + 1):
+                            return True
+        if isinstance(st, ast.If):
+            return block(st.body) and block(st.orelse)
+        if isinstance(st, ast.Try):
+            return block(st.body) or block(st.finalbody)
+        if isinstance(st, ast.With):
+            return block(st.body)
+        return False
+
+    def block(stmts) -> bool:
+        for st in stmts:
+            if stmt_assigns(st):
+                return True
+            if isinstance(st, (ast.Return, ast.Raise)):
+                return False
+        return False
+
+    return block(fn.body)
+
+
+def per_call_fields(cls: ast.ClassDef) -> Set[str]:
+    """self-fields written outside __init__ (working state of one call)."""
+    out: Set[str] = set()
+    for name, fn in class_methods(cls).items():
+        if name == "__init__":
+            continue
+        for n in ast.walk(fn):
+            if isinstance(n, (ast.Assign, ast.AnnAssign, ast.AugAssign)):
+                tg = n.targets if isinstance(n, ast.Assign) else [n.target]
+                for t in tg:
+                    d = dotted(t)
+                    if d and d.startswith("self.") and d.count(".") == 1:
+                        out.add(d.split(".")[1])
+    return out
+
+
+def check_runner_state(repo: Repo, run: Run, prop: str) -> None:
+    """H6: an object a runner keeps between evaluate() calls must reset its per-call working state on
+    every path of the method the runner calls; otherwise it must be created per call."""
+    cp = repo.mod("celpy")
+    ev = repo.mod("evaluation")
+    for modname, rname in (("celpy", "InterpretedRunner"), ("celpy", "CompiledRunner"), ("c7nlib", "C7N_Interpreted_Runner")):
+        mod = repo.mod(modname)
+        rcls = mod.cls(rname)
+        meths = class_methods(rcls)
+        evalm = meths.get("evaluate")
+        if evalm is None:
+            raise AnchorMissing(f"{modname}.{rname}.evaluate")
+        # fields assigned in __init__ (of this class) from a constructor call: field -> class name
+        kept: Dict[str, str] = {}
+        init = meths.get("__init__")
+        if init is not None:
+            for n in ast.walk(init):
+                if isinstance(n, ast.Assign) and isinstance(strip_cast(n.value), ast.Call):
+                    cname = (dotted(strip_cast(n.value).func) or "").split(".")[-1]
+                    for t in n.targets:
+                        d = dotted(t)
+                        if d and d.startswith("self.") and ev.has(cname) and isinstance(ev.top(cname), ast.ClassDef):
+                            kept[d.split(".")[1]] = cname
+        found = False
+        for c in ast.walk(evalm):
+            if isinstance(c, ast.Call) and isinstance(c.func, ast.Attribute) and c.func.attr in ("evaluate",):
+                recv = dotted(c.func.value) or ""
+                found = True
+                if recv.startswith("self.") and recv.split(".")[1] in kept:
+                    cname = kept[recv.split(".")[1]]
+                    ccls = ev.cls(cname)
+                    cm = class_methods(ccls).get(c.func.attr)
+                    fields = sorted(per_call_fields(ccls) - {"level", "source_text", "executable_code"})
+                    bad = [f for f in fields if cm is None or not assigns_on_all_paths(ccls, cm, f)]
+                    run.ob(f"{prop}.H6", f"{rname}.evaluate|{cname}", not bad,
+                           f"{rname} keeps a {cname} between calls; {cname}.{c.func.attr} " +
+                           (f"re-assigns its working state {fields} on every path" if not bad else
+                            f"does not reset {bad} on every path: a call with empty bindings runs against the previous call's state"), mod.loc(c))
+                else:
+                    run.ob(f"{prop}.H6", f"{rname}.evaluate|per-call", True, f"{rname}.evaluate evaluates with an object created by this call ({recv or 'local'})", mod.loc(c))
+        if not found:
+            run.inconclusive(f"{prop}.H6", f"{rname}.evaluate", "no .evaluate(...) call found")
+
+
 def check_channels(repo: Repo, run: Run, prop: str) -> None:
     fns = channels.all_functions(repo)
     g = channels.call_graph(repo, fns)
@@ -224,7 +320,8 @@ def check_channels(repo: Repo, run: Run, prop: str) -> None:
                 run.ob(f"{prop}.H5", f"{f.qual}|load_values", ok, f"{f.label}: {why}", repo.mod(f.mod).loc(c))
     run.floor(f"{prop}.H5", n5, 3)
 
-    # H6: a runner builds its working activation per call or clones the one it keeps ----
+    check_runner_state(repo, run, prop)
+    # H6b: a runner builds its working activation per call or clones the one it keeps ----
     cp = repo.mod("celpy")
     for rname in ("InterpretedRunner", "CompiledRunner"):
         meths = class_methods(cp.cls(rname))
@@ -237,7 +334,7 @@ def check_channels(repo: Repo, run: Run, prop: str) -> None:
                 v = strip_cast(n_.value)
                 if isinstance(v, ast.Attribute) and dotted(v) and dotted(v).startswith("self."):
                     kept.append(dotted(v))
-        run.ob(f"{prop}.H6", f"{rname}.evaluate|activation", True,
+        run.ob(f"{prop}.H6", f"{rname}.evaluate|activation-arg", True,
                f"{rname}.evaluate " + ("creates its activation per call" if not kept else f"hands the kept object {kept} to the evaluator, which clones it before loading bindings (H3/H5 decide the depth)"),
                cp.loc(evalm))
 
